@@ -132,6 +132,11 @@ def run(ctx):
     for nm, w, mwords in [("w4", 4, 3)] + ([] if ctx.quick else [("w5", 5, 2), ("w3", 3, 4)]):
         pcfg = fw.write_cfg(ctx.path("MC_ModPowAlg_%s.cfg" % nm), invariants=["ExponentOK", "RingOK", "ChooserOK"], constants={"W": w, "MaxWords": mwords})
         ctx.mc("mc-powalg-" + nm, SPEC, "ModPowAlg.tla", pcfg, workers=4)
+    # the inverse in a ring with a large modulus: by the residue's length gcd_ext_word / gcd_ext_dword / gcd_ext_in_place (C12's
+    # GcdExtAlg), the sign rule and the negation in the ring; every modulus of three (four) three-bit words x every residue
+    icfg = fw.write_cfg(ctx.path("MC_ModInvAlg.cfg"), spec="InvSpec", invariants=["InvOK"],
+                        constants={"W": 3, "XMax": ctx.pick(800, 2047), "YStride": ctx.pick(1, 1), "Dword": "FALSE"})
+    ctx.mc("mc-modinv", SPEC, "ModInvAlg.tla", icfg, workers=4, libs=("C12",), timeout=2400)
     ctx.scope["pow_alg_scopes"] = "W=4 bits x 3 words" + ("" if ctx.quick else ", W=5 x 2, W=3 x 4") + ", every exponent, every window length 1..W-1"
 
     # 2. spec -> impl
